@@ -118,11 +118,31 @@ func readLongStr(r io.Reader) (v string, err error) {
 		return
 	}
 
-	bytesValue := make([]byte, length)
-	if _, err = io.ReadFull(r, bytesValue); err != nil {
+	var bytesValue []byte
+	if bytesValue, err = readExactly(r, int64(length)); err != nil {
 		return
 	}
 	return string(bytesValue), nil
+}
+
+// readExactly reads n bytes into a buffer that grows with the bytes actually
+// present, so that a declared length cannot make the reader allocate more than
+// a small multiple of what the stream holds.  Errors are those of io.ReadFull:
+// io.EOF when nothing could be read, io.ErrUnexpectedEOF when the stream ends
+// early.
+func readExactly(r io.Reader, n int64) ([]byte, error) {
+	var buf bytes.Buffer
+	read, err := io.CopyN(&buf, r, n)
+	if err != nil {
+		if err == io.EOF && read > 0 {
+			err = io.ErrUnexpectedEOF
+		}
+		return nil, err
+	}
+	if buf.Len() == 0 {
+		return []byte{}, nil
+	}
+	return buf.Bytes(), nil
 }
 
 func readDecimal(r io.Reader) (v Decimal, err error) {
@@ -239,8 +259,8 @@ func readField(r io.Reader) (v interface{}, err error) {
 			return nil, ErrSyntax
 		}
 
-		value := make([]byte, lenVal)
-		if _, err = io.ReadFull(r, value); err != nil {
+		value, err := readExactly(r, int64(lenVal))
+		if err != nil {
 			return nil, err
 		}
 		return value, err
